@@ -424,11 +424,12 @@ def _fresh_return(r, fn, par, depth=0):
         return True
     p = par.get(id(r))
     # a constant (or a named lower bound) returned under `if not <population>:` is fresh: nothing is in use yet
-    if isinstance(p, ast.If) and isinstance(p.test, ast.UnaryOp) and isinstance(p.test.op, ast.Not) and r in p.body \
-            and isinstance(r.value, (ast.Constant, ast.Name)):
+    simple_ = isinstance(r.value, (ast.Constant, ast.Name)) or (isinstance(r.value, ast.Attribute) and dotted(r.value) is not None
+                                                                and dotted(r.value).split(".")[0] in ("self", "cls"))   # a named bound of the class
+    if isinstance(p, ast.If) and isinstance(p.test, ast.UnaryOp) and isinstance(p.test.op, ast.Not) and r in p.body and simple_:
         return True
     # the same decided on paths: every path ending in this return has established that a collection is empty
-    if isinstance(r.value, (ast.Constant, ast.Name)) and isinstance(fn, (ast.FunctionDef, ast.AsyncFunctionDef)):
+    if simple_ and isinstance(fn, (ast.FunctionDef, ast.AsyncFunctionDef)):
         from sa import paths as P_
 
         pths = [q for q in P_.enum_paths(fn.body) if q.end_node is r]
@@ -576,17 +577,17 @@ def run(ctx):
                     env[n.targets[0].id] = v
         for n in ast.walk(g.node):
             if isinstance(n, ast.Compare) and len(n.ops) == 1 and isinstance(n.ops[0], (ast.LtE, ast.Lt)) and len(n.comparators) == 1:
-                v = prog.const(n.comparators[0], g.module, env)
+                v = prog.const(n.comparators[0], g.module, env, g.cls)
                 if isinstance(v, int) and v > 1 << 20:
                     consts["MAX_SLIDE_ID"] = v if isinstance(n.ops[0], ast.LtE) else v - 1
             if isinstance(n, ast.Compare) and len(n.ops) == 2:  # MIN <= id <= MAX
-                lo_, hi_ = prog.const(n.left, g.module, env), prog.const(n.comparators[1], g.module, env)
+                lo_, hi_ = prog.const(n.left, g.module, env, g.cls), prog.const(n.comparators[1], g.module, env, g.cls)
                 if isinstance(lo_, int) and isinstance(hi_, int):
                     consts["MIN_SLIDE_ID"], consts["MAX_SLIDE_ID"] = lo_, hi_
             if isinstance(n, ast.Call) and dotted(n.func) == "enumerate":
                 for k in n.keywords:
                     if k.arg == "start":
-                        v = prog.const(k.value, g.module, env)
+                        v = prog.const(k.value, g.module, env, g.cls)
                         if isinstance(v, int):
                             consts["MIN_SLIDE_ID"] = v
     from sa.intervals import SimpleTypes
@@ -729,7 +730,7 @@ def run(ctx):
     ctx.ok("R6.5", "image/media siblings", nontrivial=False)
 
 
-def _stale_returns(f, prog=None):
+def _stale_returns(f, prog=None, _depth=0):
     def stale(node):
         par = _parents(node)
         return [r for r in walk_own(node) if isinstance(r, ast.Return) and r.value is not None and not _fresh_return(r, node, par)]
@@ -737,9 +738,18 @@ def _stale_returns(f, prog=None):
     out = stale(f.node)
     if out and prog is not None:
         # judge the canonical form (helpers of the module inlined: the freshness may come from an argument)
-        from sa.inline import expand
+        from sa.inline import expand, resolve_callee
 
         out = stale(expand(prog, f, local_only=True))
+        # a value handed on from a helper of the repository is as fresh as what the helper returns (judged on the helper)
+        keep = []
+        for r in out:
+            v = r.value
+            rc = resolve_callee(prog, f, v, {}) if isinstance(v, ast.Call) and _depth < 3 else None
+            if rc is not None and hasattr(rc[0], "node") and rc[0].node is not f.node and not _stale_returns(rc[0], prog, _depth + 1):
+                continue
+            keep.append(r)
+        out = keep
     return out
 
 
